@@ -228,3 +228,55 @@ func WithLeadingZero(t string, n int) *Key {
 	}
 	return lzCache[t][n]
 }
+
+// twoLeadingZeros lists, per curve, indices of derived keys whose X (first entry) / Y (second entry) coordinate begins with two
+// zero bytes (P-521: three, its top byte holds one bit) - about one key in 2^16 per coordinate; found by cmd/lzsearch.
+var twoLeadingZeros = map[string][2]int{"secp256k1": {44628, 41191}, "P-256": {40392, 2375}, "P-384": {14970, 93149}, "P-521": {10734, 63505}}
+
+// WithTwoLeadingZeros returns the derived key of the curve whose X (which = 0) or Y (which = 1) coordinate begins with two zero bytes.
+func WithTwoLeadingZeros(t string, which int) *Key {
+	idx, ok := twoLeadingZeros[t]
+	if !ok {
+		panic("keys: no two-leading-zero key for " + t)
+	}
+	k := New(t, idx[which])
+	x, y := k.XY()
+	c := [][]byte{x, y}[which]
+	if c[0] != 0 || c[1] != 0 {
+		panic("keys: table of two-leading-zero keys is wrong for " + t)
+	}
+	return k
+}
+
+// PublicWithXAtLeastOrder returns the n-th public key (no private part; Index is -1-n) of the curve whose X coordinate is at least
+// the group order N (and below the field prime P): valid points that a range check against N instead of P refuses.
+func PublicWithXAtLeastOrder(t string, n int) *Key {
+	c := Curve(t)
+	if c == nil {
+		panic("keys: unknown curve " + t)
+	}
+	p := c.Params()
+	a := big.NewInt(-3)
+	if t == "secp256k1" {
+		a = big.NewInt(0)
+	}
+	x := new(big.Int).Set(p.N)
+	for found := 0; ; x.Add(x, big.NewInt(1)) {
+		if x.Cmp(p.P) >= 0 {
+			panic("keys: no point with N <= x < P on " + t)
+		}
+		// y^2 = x^3 + a*x + b
+		rhs := new(big.Int).Exp(x, big.NewInt(3), p.P)
+		rhs.Add(rhs, new(big.Int).Mul(a, x))
+		rhs.Add(rhs, p.B)
+		rhs.Mod(rhs, p.P)
+		y := new(big.Int).ModSqrt(rhs, p.P)
+		if y == nil || !c.IsOnCurve(x, y) {
+			continue
+		}
+		if found == n {
+			return &Key{Type: t, Index: -1 - n, EC: &ecdsa.PrivateKey{PublicKey: ecdsa.PublicKey{Curve: c, X: new(big.Int).Set(x), Y: y}}}
+		}
+		found++
+	}
+}
